@@ -54,7 +54,18 @@ let run_a ?(multi = false) (live : bool) (ops : string list) : string =
   let wrap o = if live then OSnapRpc o else o in
   let src_prefix c k = List.filteri (fun i _ -> i < k) (Hashtbl.find srcs c) in
   let kth c k = List.nth (Hashtbl.find srcs c) (k - 1) in
-  let do_op o = let (nd', r) = step !nd o in nd := nd'; observe r in
+  let since = ref None in   (* committed entries since the pending snapshot was begun (SB) *)
+  let do_op o =
+    let (nd', r) = step !nd o in
+    nd := nd';
+    (match r, !since with
+     | ROkN k, Some b -> since := Some (b + int_of_nat k)
+     | _ -> ());
+    (match o, !since with
+     | OLocal _, Some b -> since := Some (b + 1)
+     | ORestart, _ -> since := None
+     | _ -> ());
+    observe r in
   List.iter (fun op ->
     match split_on ':' op with
     | ["D"; c; t; i; ts; p; f] ->
@@ -64,6 +75,11 @@ let run_a ?(multi = false) (live : bool) (ops : string list) : string =
     | ["X"] -> do_op OLose
     | ["L"; p] -> do_op (OLocal (n_of_dec p))
     | ["S"] -> do_op OSnap
+    | ["SB"] -> since := Some 0; observe ROk
+    | ["SF"] ->
+      (match !since with
+       | Some b -> since := None; do_op (OSnapLate (nat_of_int b))
+       | None -> observe RNone)
     | ["R"; _] | ["Y"; _] -> restarted := true; do_op ORestart
     | "W" :: c :: rest ->
       let ci = int_of_string c in
